@@ -422,6 +422,24 @@ class Interp:
             a = self.ev(node.left, env, fname, depth)
             b = self.ev(node.right, env, fname, depth)
             return self.binop(type(node.op), a, b, fname, node)
+        if isinstance(node, ast.IfExp):
+            # a if t else b  with t a constant or a single-bit test: the two arms re-joined linearly on that bit
+            cond = self.ev(node.test, env, fname, depth)
+            if isinstance(cond, Lin) and cond.is_const():
+                cond = cond.const
+            if isinstance(cond, int):
+                return self.ev(node.body if cond else node.orelse, env, fname, depth)
+            if not (isinstance(cond, Lin) and cond.const == 0 and len(cond.coefs) == 1):
+                raise Unsupported('{}: condition of `{}` is not a single-bit test'.format(fname, unparse(node)))
+            (atom, coef), = cond.coefs.items()
+            if atom == SH or coef == 0:
+                raise Unsupported('{}: condition on the unbounded part'.format(fname))
+            outs = []
+            for val, arm in ((1, node.body), (0, node.orelse)):
+                e2 = {k: (v.subst(atom, val) if isinstance(v, Lin) else v) for k, v in env.items()}
+                r = self.ev(arm, e2, fname, depth)
+                outs.append(Lin({}, r) if isinstance(r, int) else r)
+            return join_on_bit(atom, outs[0], outs[1], fname)
         if isinstance(node, ast.Call) and isinstance(node.func, ast.Name) and node.func.id in self.facts.funcs:
             if depth > 4:
                 raise Unsupported('inlining depth')
